@@ -97,6 +97,21 @@ def neg_rule(ctx, prog, q):
     return dec
 
 
+def simp(t):
+    """normalise a term: projection of an aggregate literal, integer cast of a constant"""
+    if isinstance(t, tuple):
+        t = tuple(simp(x) for x in t)
+        if len(t) == 3 and t[0] == 'field' and isinstance(t[1], tuple) and len(t[1]) == 3 and t[1][0] == 'agg' and isinstance(t[2], int) and t[2] < len(t[1][2]):
+            return t[1][2][t[2]]
+        if len(t) == 4 and t[0] == 'cast' and t[1] == 'IntToInt' and isinstance(t[2], tuple) and len(t[2]) == 3 and t[2][0] == 'c' and isinstance(t[3], str) and t[3][1:].isdigit():
+            nb = int(t[3][1:])
+            return ('c', nb, t[2][2] & ((1 << nb) - 1))
+        return t
+    if isinstance(t, list):
+        return [simp(x) for x in t]
+    return t
+
+
 def split_rule(ctx, prog, q, se):
     """into_two_posits / into_three_posits: p1 = to_posit(s); s -= p1; p2 = to_posit(s); s -= p2; p3 = to_posit(s)"""
     n = 0
@@ -118,15 +133,16 @@ def split_rule(ctx, prog, q, se):
         got_ret = strip_refs(r['ret'])
         ok = got_ret == want_ret
         effs = [strip_refs(e) for e in r['effects']]
-        if len(effs) != k - 1:
+        # the reference for each step is the `-= p` spelling itself (SubAssign<P> for Q) applied to (state i, posit i): both sides are
+        # normalised by the same term evaluator, so helper names and the way the bits are handed on do not matter
+        sp = find_assign_impl(prog, q, 'core::ops::SubAssign', q.pty.tykey)
+        if len(effs) != k - 1 or not sp:
             ok = False
         else:
             for i, e in enumerate(effs):
-                callee = e[1].rsplit('::', 1)[-1]
-                if callee != 'fdp_one' or e[3][0] != states[i] or e[3][-1] != ('c', 1, 0):
-                    ok = False
-                opnd = e[3][1]
-                if opnd != ('cast', 'IntToInt', ('field', posits[i], 0), ubits):
+                ref = se.apply(sp, [states[i], posits[i]])
+                want_e = [simp(strip_refs(x)) for x in ref['effects']]
+                if len(want_e) != 1 or want_e[0] != simp(e):
                     ok = False
         if not ok:
             ctx.finding('QSPLIT', '%s::%s' % (q.name, name), 'sequence', 'does not denote p1=to_posit(s); s-=p1; p2=to_posit(s); ...: returns %r with effects %r'
@@ -157,10 +173,12 @@ def from_posit_rule(ctx, prog, q, se):
         ok = r is not None
         if ok:
             effs = [strip_refs(e) for e in r['effects']]
-            ok = (len(effs) == 1 and effs[0][1].rsplit('::', 1)[-1] == 'fdp' and effs[0][3][0] == zero
-                  and effs[0][3][1] == ('cast', 'IntToInt', ('field', ('arg', 0), 0), ubits)
-                  and effs[0][3][2] == ('c', q.pty.bits, q.pty.one) and effs[0][3][3] == ('c', 1, 1)
-                  and strip_refs(r['ret']) == ('after', 0, 0))
+            # reference: the `+= (p, ONE)` spelling applied to (ZERO, (p, ONE)), normalised by the same term evaluator
+            ap = find_assign_impl(prog, q, 'core::ops::AddAssign', '(%s, %s)' % (q.pty.tykey, q.pty.tykey))
+            one_t = ('agg', 0, (('c', q.pty.bits, q.pty.one),))
+            ref = se.apply(ap, [zero, ('agg', 0, (('arg', 0), one_t))]) if ap else None
+            want_e = [simp(strip_refs(x)) for x in ref['effects']] if ref else None
+            ok = (want_e is not None and len(effs) == 1 and len(want_e) == 1 and simp(effs[0]) == want_e[0] and strip_refs(r['ret']) == ('after', 0, 0))
         if not ok:
             ctx.finding('QFROM', label, 'definition', 'does not denote ZERO += (p, ONE): %r' % (r,), {'function': p_})
     return n
